@@ -45,6 +45,12 @@ def run(ck, prog, ctx):
     from engines import check_zip_lengths as _czl
     ck.extra["zips with computable lengths in the arena / ontology code"] = _czl(ck, "ZIP", prog, [b for b in prog.production() if (b.file or "") in ("src/ontology/termarena.rs", "src/ontology.rs")], "the arena's terms / slots")
 
+    from engines import check_parallel_vectors as _cpv
+    ck.rule("PARALLEL", "two Vec fields of one struct that a method edits together are edited at the same position")
+    ck.extra["side-by-side vector edits examined"] = _cpv(ck, "PARALLEL", prog, [b_ for b_ in prog.production() if (b_.file or "").startswith(("src/ontology/termarena",))])
+    from engines import check_boundary_agreement as _cba
+    ck.rule("BOUNDARY", "the arena's functions that compare an id / a length with the same named constant cut at the same point")
+    ck.extra["named constants compared in more than one arena function"] = _cba(ck, "BOUNDARY", prog, [b_ for b_ in prog.production() if (b_.file or "") == "src/ontology/termarena.rs"], "term arena")
     # ------------------------------------------------------------------ PANIC
     entries = []
     for e in ENTRY:
@@ -128,7 +134,18 @@ def run(ck, prog, ctx):
     # these rules are phrased over the representation `slot 0 = absent, terms[0] = placeholder`.  An arena that keeps no placeholder inside `terms`
     # (Option<NonZero..> slots, a separate placeholder field) has no zero test to find: its private lookup is then not judged here
     sentinel_repr = consts.get("default/pushes", 1) != 0
-    if not sentinel_repr:
+    # ... and over the FLAT table `ids[id] = slot`: `get` / `get_mut` / `insert` read and write the slot of an id by indexing the table with the id
+    # itself.  A lookup that goes through private helpers of the arena (a hash table with probing, a two-tier table, ..) finds and claims slots
+    # elsewhere; the zero-test rules are then not phrased over the code that decides.
+    g0_ = arena_fn(prog, "get")
+    if sentinel_repr and g0_ is not None:
+        own_table = any(t_.callee.method in ("index", "get", "get_unchecked") and "HpoTermInternal" not in (t_.callee.def_args or "") and re.search(r"Vec<|\[", t_.callee.def_args or "") and not (t_.callee.res and t_.callee.res in prog.bodies) for _, t_ in g0_.calls())
+        helper_ = [prog.bodies[t_.callee.res] for _, t_ in g0_.calls() if t_.callee.res in prog.bodies and (prog.bodies[t_.callee.res].impl_self or {}).get("adt") == ARENA and not prog.bodies[t_.callee.res].exported and prog.bodies[t_.callee.res].vis != "public" or (t_.callee.res in prog.bodies and (prog.bodies[t_.callee.res].impl_self or {}).get("adt") == ARENA and prog.bodies[t_.callee.res].name not in ("len", "values", "get", "get_mut", "insert", "keys", "iter", "values_mut", "get_unchecked", "get_unchecked_mut"))]
+        if not own_table and helper_:
+            ck.undecided("DOM", "representation", "Arena::get finds the slot of an id through the private helper %s, not by indexing a flat id table: the slot != 0 / slot == 0 rules (phrased over `ids[id]`) do not apply" % helper_[0].short, where=g0_.where())
+            sentinel_repr = False
+            consts["default/pushes"] = 1  # (the message below is about the other representation)
+    if not sentinel_repr and consts.get("default/pushes", 1) == 0:
         ck.undecided("DOM", "representation", "the arena reserves no placeholder inside `terms` (another private representation of an absent id): the slot != 0 / slot == 0 rules do not apply")
     for name in (("get", "get_mut") if sentinel_repr else ()):
         b = arena_fn(prog, name)
